@@ -53,9 +53,9 @@ type RemoteParams struct {
 	PlainHTTP bool       `json:"plain_http,omitempty"`
 	// MMT: Repository.ManifestMediaTypes. When set, content of any other media type is
 	// routed to the blob endpoints, manifests included.
-	MMT []string `json:"manifest_media_types,omitempty"`
-	SkipGC    bool       `json:"skip_referrers_gc,omitempty"`
-	Fault     *NetFault  `json:"fault,omitempty"`
+	MMT    []string  `json:"manifest_media_types,omitempty"`
+	SkipGC bool      `json:"skip_referrers_gc,omitempty"`
+	Fault  *NetFault `json:"fault,omitempty"`
 	// FaultPick: when set (and Fault is nil) the fault is placed on the FaultPick-th exchange (modulo)
 	// of a fault-free run of the same history, and Fault is filled in
 	FaultPick []uint64 `json:"fault_pick,omitempty"`
